@@ -22,6 +22,7 @@ EXPLANATION = (
     "covers the metacharacters outside Safari's subset; (7) no emitted url-filter can be the empty string "
     "(WebKit rejects a rule list containing one): every value reaching CbTrigger.url_filter is a non-empty "
     "literal, a format! with a non-empty literal piece, or passes an is_empty() test that repairs or rejects."
+    ' Round 8: every Ok result of into_content_blocking passes the step that moves ignore-previous-rules entries behind all others (not conditional on a remembered flag).'
 )
 NOT_DECIDED = "That the emitted pattern matches a superset of the URLs the original rule matches (value level)."
 
